@@ -5,7 +5,7 @@
    conversion this file does not compile; the driver then machine-checks a refutation.) *)
 From Coq Require Import Reals List Lra Psatz Nsatz.
 From EFLib Require Import C11_MatR.
-From EFP Require Import Gen_Pmat Gen_Laws C11_pmat.
+From EFP Require Import Gen_Pmat Gen_Laws C11_wf.
 Import ListNotations.
 Open Scope R_scope.
 
